@@ -28,13 +28,15 @@ theorem ObjVals.congr {o o' : Obj} (h : ObjVals o) (h1 : o'.otype = o.otype) (h2
 
 /-! ### requests -/
 
-/-- the values of a request that can reach the store: enumeration values fit 32 bits, Integers 32 bits signed -/
-def avalReq : AVal → Bool
+/-- the values of a request that can reach the store: enumeration values fit 32 bits, a Cryptographic Length fits an
+Integer (an Interval attribute - Lease Time - also arrives as `AVal.int` and may be as large as 2^32 - 1: it is never
+stored) -/
+def avalReq (name : String) : AVal → Bool
   | .enum n => u32 n
-  | .int n => i32 n
+  | .int n => !(name == "Cryptographic Length") || i32 n
   | _ => true
 
-def tattrReq (a : TAttr) : Bool := avalReq a.value && optAll i32 a.index
+def tattrReq (a : TAttr) : Bool := avalReq a.name a.value && optAll i32 a.index
 
 def tmplReq (t : Option Template) : Bool := optAll (fun (t : Template) => t.attrs.all tattrReq) t
 
@@ -70,18 +72,18 @@ instance (r : Request) : Decidable (RequestInRange r) := by unfold RequestInRang
 
 /-! ### collected template values -/
 
-def colReq : Collected → Bool
-  | .single v => avalReq v
-  | .multi vs => vs.all avalReq
+def colReq (name : String) : Collected → Bool
+  | .single v => avalReq name v
+  | .multi vs => vs.all (avalReq name)
 
-def DictReq (d : AttrDict) : Prop := ∀ kv ∈ d, colReq kv.2 = true
+def DictReq (d : AttrDict) : Prop := ∀ kv ∈ d, colReq kv.1 kv.2 = true
 
 theorem DictReq.nil : DictReq [] := by intro kv h; cases h
 
 theorem DictReq.get {d : AttrDict} {name : String} {col : Collected} (hd : DictReq d) (h : d.get name = some col) :
-    colReq col = true := hd (name, col) (lookup_mem_wt d name col h)
+    colReq name col = true := hd (name, col) (lookup_mem_wt d name col h)
 
-theorem DictReq.set {d : AttrDict} {name : String} {col : Collected} (hd : DictReq d) (hc : colReq col = true) :
+theorem DictReq.set {d : AttrDict} {name : String} {col : Collected} (hd : DictReq d) (hc : colReq name col = true) :
     DictReq (d.set name col) := by
   unfold AttrDict.set
   split
@@ -103,7 +105,7 @@ theorem DictReq.erase {d : AttrDict} (hd : DictReq d) (name : String) : DictReq 
   exact hd kv hkv.1
 
 theorem processTemplateStep_req {c : Ctx} {ver : Nat} {d d' : AttrDict} {a : TAttr}
-    (hd : DictReq d) (ha : avalReq a.value = true) (h : processTemplateStep c ver d a = .ok d') : DictReq d' := by
+    (hd : DictReq d) (ha : avalReq a.name a.value = true) (h : processTemplateStep c ver d a = .ok d') : DictReq d' := by
   unfold processTemplateStep at h
   simp only [isMultivalued_eq, bind, Except.bind, pure, Except.pure] at h
   by_cases hsup : c.isSupported ver a.name = true
@@ -111,7 +113,7 @@ theorem processTemplateStep_req {c : Ctx} {ver : Nat} {d d' : AttrDict} {a : TAt
     cases hmv : c.mv a.name with
     | true =>
       simp only [hmv, if_true] at h
-      have fin : ∀ vs : List AVal, vs.all avalReq = true → DictReq (d.set a.name (.multi (vs ++ [a.value]))) := by
+      have fin : ∀ vs : List AVal, vs.all (avalReq a.name) = true → DictReq (d.set a.name (.multi (vs ++ [a.value]))) := by
         intro vs hvs
         refine hd.set ?_
         simp only [colReq, List.all_append, List.all_cons, List.all_nil, Bool.and_true, Bool.and_eq_true]
@@ -157,7 +159,7 @@ theorem processTemplate?_req {c : Ctx} {ver : Nat} {t : Option Template} {d : At
     split at h
     · cases h
     · simp only [tmplReq, optAll, List.all_eq_true] at ht
-      exact foldlM_inv _ DictReq (fun a : TAttr => avalReq a.value = true)
+      exact foldlM_inv _ DictReq (fun a : TAttr => avalReq a.name a.value = true)
         (fun b a b' hb ha hs => processTemplateStep_req hb ha hs) t.attrs [] d
         (fun a ha => by have := ht a ha; simp only [tattrReq, Bool.and_eq_true] at this; exact this.1)
         DictReq.nil h
@@ -226,7 +228,7 @@ theorem vals_lenN {o : Obj} (ho : ObjVals o) (l : Nat) (h : i32 (Int.ofNat l) = 
   show optAll (fun (l : Nat) => i32 (Int.ofNat l)) (some l) = true
   rw [optAll_some]; exact h
 
-theorem setSingle_vals {o o' : Obj} {n : String} {v : AVal} (ho : ObjVals o) (hv : avalReq v = true)
+theorem setSingle_vals {o o' : Obj} {n : String} {v : AVal} (ho : ObjVals o) (hv : avalReq n v = true)
     (h : setSingle o n v = .ok o') : ObjVals o' := by
   unfold setSingle at h
   split_all h
@@ -236,7 +238,7 @@ theorem setSingle_vals {o o' : Obj} {n : String} {v : AVal} (ho : ObjVals o) (hv
        first
          | exact ho
          | exact vals_alg ho _ hv
-         | exact vals_len ho _ hv
+         | exact vals_len ho _ (by simp_all [avalReq])
          | exact vals_mask ho _
          | exact ho.congr rfl rfl rfl rfl rfl rfl rfl rfl)
 
@@ -248,7 +250,7 @@ theorem setMulti_vals {o o' : Obj} {n : String} {vs : List AVal} (ho : ObjVals o
     | (simp [kerr, ierr] at h; done)
     | (simp only [pure, Except.pure, Except.ok.injEq] at h; subst h; exact ho.congr rfl rfl rfl rfl rfl rfl rfl rfl)
 
-theorem setAttr_vals {c : Ctx} {o o' : Obj} {n : String} {v : Collected} (ho : ObjVals o) (hv : colReq v = true)
+theorem setAttr_vals {c : Ctx} {o o' : Obj} {n : String} {v : Collected} (ho : ObjVals o) (hv : colReq n v = true)
     (h : setAttr c o n v = .ok o') : ObjVals o' := by
   unfold setAttr at h
   simp only [bind, Except.bind] at h
@@ -265,7 +267,7 @@ theorem setAttr_vals {c : Ctx} {o o' : Obj} {n : String} {v : Collected} (ho : O
 theorem setAttrs_vals {c : Ctx} {d : AttrDict} {o o' : Obj} (ho : ObjVals o) (hd : DictReq d)
     (h : setAttrs c o d = .ok o') : ObjVals o' := by
   unfold setAttrs at h
-  refine foldlM_inv _ ObjVals (fun kv : String × Collected => colReq kv.2 = true) ?_ d o o' hd ho h
+  refine foldlM_inv _ ObjVals (fun kv : String × Collected => colReq kv.1 kv.2 = true) ?_ d o o' hd ho h
   intro b kv b' hb hkv hs
   simp only [bind, Except.bind] at hs
   split at hs
